@@ -67,28 +67,46 @@ def certificate_search(R, c, radius=3, max_labels=4):
     introduced (the macro program does not report its block labels), searched around the in-place result's values"""
     import itertools
     if c['ci'][0] != "OK":
+        # no in-place result to start from (typically: the in-place program oscillates where the block's own loop
+        # settles): every address of the claimed output is a candidate for each block label
+        blk = [it[1] for it in c['inl'].items if it[0] == 'label' and c17_gen.is_fresh(it[1]) and not it[1].startswith(('ze_', 'zs_'))]
+        nb = len(c['cm'][1]) // 8 + 1
+        if not blk or nb ** len(blk) > 3000:
+            return False
+        claimed_vals = symvals(c['cm'][3])
+        texts = []
+        for combo in itertools.product(range(nb), repeat=len(blk)):
+            vals = dict(claimed_vals)
+            vals.update(zip(blk, combo))
+            lines = pin_globals(list(zip(c['inl'].items, c['inl'].lines())), vals)
+            texts.append((c['prog'].isa.text() + '\n'.join(lines) + '\n', 30, c['s'], c['m']))
+        for a in R.impl(texts):
+            cr = asm_gen.canon_impl(a)
+            if cr[0] == "OK" and cr[1] == c['cm'][1] and msig(cr)[2] == msig(c['cm'])[2]:
+                return True
         return False
     fm = c['cm_raw'].split('\t')
     claimed = fm[4] if len(fm) > 4 else ''
     base = symvals(c['ci'][3])
     fresh = [n for n in c['inl'].names if c17_gen.is_fresh(n) and n in base]
-    if len(fresh) > max_labels:
-        return False
     deltas = sorted(range(-radius, radius + 1), key=abs)
-    combos = list(itertools.product(deltas, repeat=len(fresh)))
-    cases = []
-    for combo in combos:
-        extra = ''.join('%s=%x:-;' % (n, base[n] + d) for n, d in zip(fresh, combo) if base[n] + d >= 0)
-        cases.append((c['inl'], c['b'], c['m'], claimed + extra, c['cm'][1]))
-    ans = R.model_run(cases, mode="cert")
-    if any(a.startswith("CERT-OK") for a in ans):
-        return True
+    if len(fresh) <= max_labels:
+        cases = []
+        for combo in itertools.product(deltas, repeat=len(fresh)):
+            extra = ''.join('%s=%x:-;' % (n, base[n] + d) for n, d in zip(fresh, combo) if base[n] + d >= 0)
+            cases.append((c['inl'], c['b'], c['m'], claimed + extra, c['cm'][1]))
+        ans = R.model_run(cases, mode="cert")
+        if any(a.startswith("CERT-OK") for a in ans):
+            return True
     # the extracted certificate has no notation for boolean constants; fall back to the implementation on the in-place
     # program with EVERY label pinned (globals to the claimed addresses, introduced labels to the candidate ones):
     # it must reproduce exactly the claimed bits and symbols
     claimed_vals = symvals(c['cm'][3])
     texts = []
-    for combo in combos:
+    fresh = [n for n in fresh if not n.startswith(('ze_', 'zs_'))]       # only the block labels matter here
+    if len(fresh) > max_labels + 1:
+        return False
+    for combo in itertools.product(deltas, repeat=len(fresh)):
         vals = dict(claimed_vals)
         for n, d in zip(fresh, combo):
             vals[n] = max(0, base[n] + d)
